@@ -13,3 +13,18 @@ Definition index_bonds (m : rmol) : list (N * N * Z) :=
               if Nat.ltb (fst (fst b)) (length (rm_atoms m)) && Nat.ltb (snd (fst b)) (length (rm_atoms m))
               then [((N.of_nat (fst (fst b)) + 1)%N, (N.of_nat (snd (fst b)) + 1)%N, snd b)] else []) (rm_bonds m).
 Definition index_graph (m : rmol) : mgraph := LG (index_nodes m) (index_bonds m).
+
+(** ** every flag combination at once (theorem C01_mol_to_graph_general): the atoms that are kept, keyed by their id *)
+Definition kept_atom (drop : bool) (a : ratom) : bool := negb (drop && N.eqb (ra_map a) 0).
+Definition gen_nodes (drop use : bool) (m : rmol) : list (N * gnode) :=
+  flat_map (fun ia : nat * ratom => if kept_atom drop (snd ia) then [(atom_id use (fst ia) (snd ia), atom_node (snd ia))] else [])
+           (enumerate (rm_atoms m)).
+Definition gen_ix (drop use : bool) (m : rmol) : list (nat * N) :=
+  flat_map (fun ia : nat * ratom => if kept_atom drop (snd ia) then [(fst ia, atom_id use (fst ia) (snd ia))] else [])
+           (enumerate (rm_atoms m)).
+Definition gen_bonds (drop use : bool) (m : rmol) : list (N * N * Z) :=
+  flat_map (fun b : nat * nat * Z =>
+              match lookup_idx (fst (fst b)) (gen_ix drop use m), lookup_idx (snd (fst b)) (gen_ix drop use m) with
+              | Some u, Some v => [(u, v, snd b)]
+              | _, _ => []
+              end) (rm_bonds m).
